@@ -31,11 +31,11 @@ PLAN = {"quick": {"shards": 16, "cases": 720, "timeout": 900}, "thorough": {"sha
 FLOORS = {"quick": {"distinct_nontrivial": 150, "TraceSymbolTable.invariant": 3000, "add_symbols.post": 1500, "histories": 250, "loads": 80,
                     "rows_decoded": 10000, "delayed_pool_loads": 15, "incremental_histories": 25, "digest_sets": 6, "digest_runs": 36,
                     "distinct_symbol_orderings": 12, "int8_boundary_loads": 10, "pool_loads_with_more_files_than_workers": 5,
-                    "view_checks": 400, "codec_checks": 300, "codec_frames_str": 100, "codec_frames_object": 100},
+                    "incremental_loads_of_subset_vocabularies": 8, "view_checks": 400, "codec_checks": 300, "codec_frames_str": 100, "codec_frames_object": 100},
           "thorough": {"distinct_nontrivial": 2000, "TraceSymbolTable.invariant": 40000, "add_symbols.post": 20000, "histories": 3500, "loads": 1000,
                        "rows_decoded": 150000, "delayed_pool_loads": 200, "incremental_histories": 300, "digest_sets": 40, "digest_runs": 400,
                        "distinct_symbol_orderings": 40, "int8_boundary_loads": 100, "pool_loads_with_more_files_than_workers": 40,
-                       "view_checks": 4000, "codec_checks": 3000, "codec_frames_str": 1000, "codec_frames_object": 1000}}
+                       "incremental_loads_of_subset_vocabularies": 80, "view_checks": 4000, "codec_checks": 3000, "codec_frames_str": 1000, "codec_frames_object": 1000}}
 ALPHA = ["aten::mm", "", "ünï::côdé", "cudaLaunchKernel", " lead", "x" * 300, "a", "b", "Kernel", "ProfilerStep#1", "Undefined-1", "0"]
 
 
@@ -126,20 +126,35 @@ def gen_case(rnd, tier: str, i: Any) -> Dict[str, Any]:
                      n_events=(rnd.choice([4000, 4000, 5, 8, 12]) if (many and r in (0, n_ranks // 2)) else rnd.choice([5, 30, 150 if big_vocab else 60]) if not many else rnd.randint(4, 12)),
                      vocab=rnd.choice([100, 110]) if big_vocab else rnd.choice([1, 4, 12]), steps=0, ts_mode="int")
             files[f"rank{r}.json" + (".gz" if rnd.random() < 0.3 else "")] = gen_struct.gen_rank(rnd, r, q)
+        subset_vocab = (not many) and rnd.random() < 0.3
+        if subset_vocab:
+            # later ranks speak a subset of rank 0's vocabulary (same model, fewer kinds of events): nothing new to add to the
+            # global table when they are parsed after rank 0
+            import copy
+            names = list(files)
+            base_tr = files[names[0]]
+            for r, fn in enumerate(names[1:], start=1):
+                tr2 = copy.deepcopy(base_tr)
+                ev = tr2["traceEvents"]
+                tr2["traceEvents"] = ev[:1] + [e for e in ev[1:] if rnd.random() < 0.6]
+                tr2["distributedInfo"] = dict(tr2.get("distributedInfo") or {}, rank=r)
+                files[fn] = tr2
         mode = rnd.choice(["load", "load_mp", "load_mp_delayed", "single_shuffled", "single_then_multi", "multi_then_multi"])
+        if subset_vocab and rnd.random() < 0.6:
+            mode = rnd.choice(["single_in_order", "single_then_multi"])
         if many:
             mode = rnd.choice(["load_mp", "load_mp_delayed"])
         order = list(range(n_ranks))
         rnd.shuffle(order)
         return {"kind": "load", "files": files, "mode": mode, "order": order, "delays": [rnd.choice([0, 0.02, 0.08, 0.15]) for _ in range(n_ranks)],
-                "big_vocab": big_vocab}
+                "big_vocab": big_vocab, "subset_vocab": subset_vocab}
     return _gen_digest(rnd, tier)
 
 
 def _gen_digest(rnd, tier: str) -> Dict[str, Any]:  # noqa: ANN001
     n_ranks = rnd.choice([1, 2, 3])
     files = {}
-    first_step = rnd.randint(1, 300)
+    first_step = gen_sim.pick_first_step(rnd, 1, 300)
     n_steps = rnd.choice([0, 1, 2, 3])
     for r in range(n_ranks):
         p = gen_sim.random_params(rnd, tier, rank=r, first_step=first_step, n_steps=n_steps, autograd=False)
@@ -398,9 +413,11 @@ def run_load(case, ctx, res) -> None:  # noqa: ANN001
             tr.parse_trace_file = delayed
         if mode in ("load", "load_mp", "load_mp_delayed"):
             ok, _ = drv.guard(res, "load_traces", t.load_traces, use_multiprocessing=mode != "load")
-        elif mode == "single_shuffled":
+        elif mode in ("single_shuffled", "single_in_order"):
             ok = True
-            for r in case["order"]:
+            if case.get("subset_vocab"):
+                res.counters["incremental_loads_of_subset_vocabularies"] += 1
+            for r in (case["order"] if mode == "single_shuffled" else sorted(case["order"])):
                 ok, _ = drv.guard(res, "parse_single_rank", t.parse_single_rank, r)
                 if not ok:
                     break
@@ -408,6 +425,9 @@ def run_load(case, ctx, res) -> None:  # noqa: ANN001
             order = case["order"]
             cut = max(1, len(order) // 2)
             if mode == "single_then_multi":
+                if case.get("subset_vocab"):
+                    order = sorted(order)
+                    res.counters["incremental_loads_of_subset_vocabularies"] += 1
                 ok, _ = drv.guard(res, "parse_single_rank", t.parse_single_rank, order[0])
                 rest = sorted(order[1:])
             else:
